@@ -239,7 +239,7 @@ def monitor_spelling(ctx, v: bytes) -> int:
                 if res[0] != 'ok' or res[1].value != v or res[2] != tail or res[3]:
                     got = res[1].value if res[0] == 'ok' else res
                     obs = {'kind': 'spelling_value', 'spelling': kind}
-                    if kind == 'atom' and b'}' in v and res[0] == 'fail':
+                    if kind == 'atom' and b'}' in v:
                         obs = {'kind': 'atom_rbrace'}     # known finding C18-F3
                     ctx.failure('astring_spelling',
                                 f'{kind} spelling of {v[:30]!r} before {tail!r} parsed to {got!r}',
